@@ -69,7 +69,7 @@ YANG_B = '''module b { yang-version 1.1; namespace "urn:b"; prefix b; import a {
 YANGS = hexs(YANG_A) + "," + hexs(YANG_B)
 
 # (module, name) -> children in schema order; leaves: type tag
-STR_POOL = ["a", "b", "c", "x", "y", "5", "5.0", "05", "-1.5", " 5 ", "1e3", "+5", "0x10", "inf", "nan", "true", "false",
+STR_POOL = ["a", "b", "c", "x", "y", "p\tq", "l1\nl2", "5", "5.0", "05", "-1.5", " 5 ", "1e3", "+5", "0x10", "inf", "nan", "true", "false",
             "a b", "é", "äöx", "x'y", "12", "2.5", "abc", "ab", "", "0", "-0", "1", "2", "3", "10", "w0", "zz", "7"]
 KEY_POOL = ["a", "b", "c", "x", "5", "5.0", "05", " 5", "1e3", "true", "é", "12", "2", "1", "k'q", "-1", "0", "abc"]
 INT_POOL = [0, 1, 2, 3, 5, 7, 10, 12, -1, -3, 100, 255, 1000, -7]
@@ -828,7 +828,8 @@ FIXED_EXPRS = [
     "..", "../..", "../../..", ".", "/", "../following-sibling::a:l1/a:k", "../preceding-sibling::a:l1[1]/a:k",
     "../preceding-sibling::*[position()<3]", "(../preceding-sibling::*)[1]", "ancestor::*[1]", "ancestor-or-self::*[last()]",
     "preceding::*[1]", "preceding::a:k[1]", "following::*[1]", "following::a:k[1]", "descendant::*[2]", "descendant-or-self::*[2]",
-    "normalize-space('  a   b ')", "translate('abcabc','ab','X')", "translate('bar','abc','ABC')", "translate('--aaa--','abc-','ABC')",
+    "normalize-space('  a   b ')", "normalize-space('a\tb')", "normalize-space('a\tb c')", "normalize-space('a\t\tb')", "normalize-space('a\nb\rc')",
+    "string-length(normalize-space('a\tb'))", "normalize-space(/a:c/a:l1[6]/a:k)", "translate('abcabc','ab','X')", "translate('bar','abc','ABC')", "translate('--aaa--','abc-','ABC')",
     "concat('a','b',1,true())", "substring-before('1999/04/01','/')", "substring-after('1999/04/01','/')",
     "substring-after('1999/04/01','19')", "substring-before('abc','')", "substring-after('abc','x')",
     "substring('12345', 1.5, 2.6)", "substring('12345', 0, 3)", "substring('12345', 0 div 0, 3)", "substring('12345', 1, 0 div 0)",
